@@ -63,6 +63,7 @@ class Lock:
 TRANSLATORS = [
     # (script, source relative to REPO (or "" for the whole package), output under coq/Gen)
     ("json_util_tr.py", "file_builder/json_util.py", "JsonUtilGen.v"),
+    ("locks_tr.py", "file_builder", "Locks.v"),
     ("decisions_tr.py", "file_builder", "Decisions.v"),
     ("sites_tr.py", "file_builder", "Sites.v"),
 ]
